@@ -5,6 +5,7 @@ package main
 
 import (
 	"context"
+	"encoding/binary"
 	"encoding/json"
 	"errors"
 	"fmt"
@@ -14,6 +15,7 @@ import (
 	"time"
 
 	netty "github.com/go-netty/go-netty"
+	"github.com/go-netty/go-netty/codec/frame"
 	"github.com/go-netty/go-netty/zz_verif/explore"
 	"github.com/go-netty/go-netty/zz_verif/hlib"
 	"github.com/go-netty/go-netty/zz_verif/mock"
@@ -32,10 +34,16 @@ type fcase struct {
 	// transport faults
 	TOp string `json:"top,omitempty"` // write | flush | read
 	TAt int    `json:"tat,omitempty"` // 1-based call number that fails
+	// Codec (read faults only): a shipped frame decoder sits in front and the failing read lands inside a
+	// frame body that the next handler reads to its end
+	Codec string `json:"codec,omitempty"`
 }
 
 func (f fcase) name() string {
 	if f.TOp != "" {
+		if f.Codec != "" {
+			return fmt.Sprintf("%s/transport-%s@%d inside a %s frame body/%s/%s", f.Cfg, f.TOp, f.TAt, f.Codec, f.Val, f.Shape)
+		}
 		return fmt.Sprintf("%s/transport-%s@%d/%s/%s", f.Cfg, f.TOp, f.TAt, f.Val, f.Shape)
 	}
 	return fmt.Sprintf("%s/%s/h%d.%s via %s/%s/%s", f.Cfg, f.Shape, f.Faulty, f.Kind, f.Entry, f.Val, f.State)
@@ -87,6 +95,17 @@ func (d *decoder) HandleRead(ctx netty.InboundContext, msg netty.Message) {
 	}
 	d.reads++
 	ctx.HandleRead(append([]byte{}, b[:n]...))
+}
+
+// bodyReader is the handler behind a frame decoder: it reads the frame body to its end.
+type bodyReader struct{}
+
+func (bodyReader) HandleRead(ctx netty.InboundContext, msg netty.Message) {
+	b, err := io.ReadAll(msg.(io.Reader))
+	if err != nil {
+		panic(err)
+	}
+	ctx.HandleRead(b)
 }
 
 type obs struct {
@@ -162,6 +181,14 @@ func buildScenario(fc fcase) *explore.Scenario {
 				hs = append(hs, probes.New(m, b))
 			}
 			all := []netty.Handler{&decoder{}}
+			switch fc.Codec {
+			case "lengthfield":
+				all = []netty.Handler{frame.LengthFieldCodec(binary.BigEndian, 1024, 0, 2, 0, 2), bodyReader{}}
+			case "fixed":
+				all = []netty.Handler{frame.FixedLengthCodec(5), bodyReader{}}
+			case "varint":
+				all = []netty.Handler{frame.VarintLengthFieldCodec(1024), bodyReader{}}
+			}
 			if fc.Entry == "idle-timer" {
 				all = append([]netty.Handler{netty.ReadIdleHandler(time.Second)}, all...)
 			}
@@ -179,12 +206,20 @@ func buildScenario(fc fcase) *explore.Scenario {
 				e.T.FailReadAt = fc.TAt
 				e.T.In = [][]byte{[]byte("r1"), []byte("r2"), []byte("r3")}
 			}
+			switch fc.Codec { // header + the first two of five body bytes, then the failing read
+			case "lengthfield":
+				e.T.In = [][]byte{{0, 5, 'a', 'b'}}
+			case "fixed":
+				e.T.In = [][]byte{{'a', 'b'}}
+			case "varint":
+				e.T.In = [][]byte{{5, 'a', 'b'}}
+			}
 			if fc.TOp != "" {
 				if pv, ok := panicVal(fc.Val).(error); ok {
 					e.T.WriteErr, e.T.FailReadErr = pv, pv
 				}
 			}
-			if fc.Kind == "read" {
+			if fc.Kind == "read" && fc.Codec == "" {
 				e.T.In = [][]byte{[]byte("in1")}
 			}
 			e.PL = netty.NewPipeline()
@@ -265,6 +300,11 @@ func buildScenario(fc fcase) *explore.Scenario {
 	}
 }
 
+func isIn(ex error, thrown any) bool {
+	te, ok := thrown.(error)
+	return ok && errors.Is(ex, te)
+}
+
 func sameValue(thrown any, ex error) bool {
 	if e, ok := thrown.(error); ok {
 		return ex == e
@@ -336,6 +376,9 @@ func check(x *vsched.Exec, o *obs) []explore.Finding {
 			}
 		}
 	}
+	if !faultHappened && fc.Codec != "" {
+		add("harness/fault-not-injected", "the scripted read failure did not happen inside the frame body;"+ctxs)
+	}
 	if !faultHappened {
 		if len(exVisits) > 0 {
 			add("spurious-exception", "exception delivered without a fault;"+ctxs)
@@ -377,6 +420,9 @@ func check(x *vsched.Exec, o *obs) []explore.Finding {
 				break
 			}
 			ex, _ := vis.Payload.(error)
+			if te, ok := thrown.(error); ok && fc.Codec != "" && errors.Is(ex, te) {
+				continue // behind a codec the transport's error may arrive wrapped, but it must be in the chain
+			}
 			if !sameValue(thrown, ex) {
 				add("exception-value/"+fc.Val, fmt.Sprintf("handler h%d received exception %v (%T), the fault was %v (%T);%s", vis.H.ID, ex, ex, thrown, thrown, ctxs))
 				break
@@ -395,7 +441,7 @@ func check(x *vsched.Exec, o *obs) []explore.Finding {
 		// nobody consumed it (or the background sender failed): the channel is closed with that error
 		if len(inactive) != 1 {
 			add("not-closed-after-unconsumed-exception/"+fc.Entry, fmt.Sprintf("an exception nobody consumed (or a failed background write) must close the channel: inactive delivered %d times;%s", len(inactive), ctxs))
-		} else if ex, _ := inactive[0].Payload.(error); !sameValue(thrown, ex) {
+		} else if ex, _ := inactive[0].Payload.(error); !sameValue(thrown, ex) && !(fc.Codec != "" && isIn(ex, thrown)) {
 			add("inactive-value/"+fc.Val, fmt.Sprintf("channel closed with %v, the fault was %v;%s", inactive[0].Payload, thrown, ctxs))
 		}
 		if o.env.T.Closes != 1 {
@@ -455,6 +501,16 @@ func cases(thorough bool) []fcase {
 					)
 				}
 			}
+		}
+	}
+	// a read failing inside a frame body behind each of the shipped length-based decoders
+	for _, sh := range shapes {
+		for _, v := range []string{"error", "net-timeout", "net-fatal"} {
+			out = append(out,
+				fcase{Cfg: hlib.ChanCfg{}, Shape: sh, Faulty: -1, Kind: "read", Entry: "readloop", Val: v, State: "open", TOp: "read", TAt: 3, Codec: "lengthfield"},
+				fcase{Cfg: hlib.ChanCfg{}, Shape: sh, Faulty: -1, Kind: "read", Entry: "readloop", Val: v, State: "open", TOp: "read", TAt: 2, Codec: "fixed"},
+				fcase{Cfg: hlib.ChanCfg{}, Shape: sh, Faulty: -1, Kind: "read", Entry: "readloop", Val: v, State: "open", TOp: "read", TAt: 3, Codec: "varint"},
+			)
 		}
 	}
 	// a connection that stays broken: every write from call k on fails, with more packets queued than one batch
@@ -568,7 +624,7 @@ func dupScenario(cfg hlib.ChanCfg, consume bool) *explore.Scenario {
 func main() {
 	explore.Main(explore.Spec{
 		Property: "C07",
-		Rule:     "every injection point: exception-handling shape {none, all forward, swallow at position 0/1/2} x panicking handler position {0,1,2} x event/entry {active and read via the read loop; write via Channel.Write and ctx.Write; user event via Channel.Trigger, ctx.Trigger and the read-idle timer callback (virtual time)} x panic value {error, string, runtime error from a nil-map write, timeout net.Error, non-timeout net.Error} x channel state {open, closing on another goroutine, closed} on sync and aq(2,B); plus transport Write/Writev/Flush/Read failing at call 1..3 with plain / timeout / non-timeout errors, and connections whose writes keep failing from call 1/2 on with more packets queued than one sender batch (aq(2,B), aq(4,B), 6 writes); a library handler that panics: two channels with the same id on one channel holder, exception consumed or not, then writes, Close and CloseAll. Each case is a closed driver explored over all interleavings up to 1 (closing: 2) preemptions. Oracle: no panic escapes into the caller, no framework goroutine dies, no deadlock; on an open channel the exception visits the exception handlers head->tail exactly once up to the first consumer with the identical value (equal text for non-errors); unconsumed (or failed background write) => exactly one inactive carrying that value and one transport Close; consumed and not a non-timeout net.Error => the channel stays usable (follow-up write succeeds). distinct = distinct (handler visit log, transport log, follow-up) observations",
+		Rule:     "every injection point: exception-handling shape {none, all forward, swallow at position 0/1/2} x panicking handler position {0,1,2} x event/entry {active and read via the read loop; write via Channel.Write and ctx.Write; user event via Channel.Trigger, ctx.Trigger and the read-idle timer callback (virtual time)} x panic value {error, string, runtime error from a nil-map write, timeout net.Error, non-timeout net.Error} x channel state {open, closing on another goroutine, closed} on sync and aq(2,B); plus transport Write/Writev/Flush/Read failing at call 1..3 with plain / timeout / non-timeout errors, and connections whose writes keep failing from call 1/2 on with more packets queued than one sender batch (aq(2,B), aq(4,B), 6 writes); a transport read failing inside a frame body behind the length-field, fixed-length and varint decoders (the transport's error must be in the exception's chain); a library handler that panics: two channels with the same id on one channel holder, exception consumed or not, then writes, Close and CloseAll. Each case is a closed driver explored over all interleavings up to 1 (closing: 2) preemptions. Oracle: no panic escapes into the caller, no framework goroutine dies, no deadlock; on an open channel the exception visits the exception handlers head->tail exactly once up to the first consumer with the identical value (equal text for non-errors); unconsumed (or failed background write) => exactly one inactive carrying that value and one transport Close; consumed and not a non-timeout net.Error => the channel stays usable (follow-up write succeeds). distinct = distinct (handler visit log, transport log, follow-up) observations",
 		Assume:   []string{"exception handlers themselves do not panic", "for a consumed non-timeout network error either outcome (closed or open) is accepted"},
 		Build: func(tier string) []*explore.Scenario {
 			th := tier == "thorough"
